@@ -1,6 +1,6 @@
 SPECIFICATION Spec
 CONSTANTS
-  Names = {"a", "b", "XLONG", "", "XUNI", "LUNI"}
+  Names = {"a", "b", "XLONG", "LUNI"}
   BaseLens = {0, 2}
   Align = {}
   EndAlign = {}
